@@ -2,7 +2,7 @@
    only; proofs in IRCP.OperP, IRCP.ModesFrame, IRCP.OperGlobal and IRCP.InvStep (delivery of
    pending KILLs). *)
 From IRC Require Import Str Wild Glob Parse Reply State Handlers Step.
-From IRCP Require Import MsgP InvDefs InvStep OperP ModesFrame OperGlobal.
+From IRCP Require Import MsgP InvDefs InvStep OperP ModesFrame OperGlobal KillP DieP.
 From stdpp Require Import gmap.
 
 (* THE global statement.  For every step of every connection i from a world satisfying the
@@ -34,6 +34,31 @@ Proof. exact dispatch_no_new_oper. Qed.
 Theorem C11_modes_untouched_by_channel_commands : forall cfg i s c chs keys r,
   process_join cfg i s c chs keys = Ok r -> keeps s (h_sh r).
 Proof. exact join_keeps. Qed.
+
+(* a whole step: KILL by an operator closes exactly the named user's connection, sends it the
+   ERROR line naming the killer and the comment, removes exactly that user record (every other
+   record is untouched), and leaves every channel the victim was not on as it was *)
+Theorem C11_kill_effect : forall cfg verify w i c l msg target comment nick u v w' o cl,
+  Inv w -> conns w !! i = Some c -> c_auth c = true -> c_nick c = Some nick ->
+  users (sh w) !! nick = Some u -> um_oper (u_modes u) = true ->
+  users (sh w) !! target = Some v ->
+  tokenize l = inl msg -> command_of_message msg = inl (KILL target comment) ->
+  step cfg verify w i (EvLine l) = Ok (w', o, cl) ->
+  cl = [u_conn v] /\
+  o = [(u_conn v, srv cfg (lit "ERROR :User killed by " ++ nick ++ lit ": " ++ comment))] /\
+  users (sh w') = delete target (users (sh w)) /\
+  conns w' = delete (u_conn v) (<[i := c]> (conns w)) /\
+  (forall ch, ch ∉ u_chans v -> chans (sh w') !! ch = chans (sh w) !! ch).
+Proof. exact kill_effect. Qed.
+
+(* a whole step: DIE by an operator ends all sessions - no user and no registered connection is left *)
+Theorem C11_die_ends_all : forall cfg verify w i c l msg m nick u w' o cl,
+  Inv w -> conns w !! i = Some c -> c_auth c = true -> c_nick c = Some nick ->
+  users (sh w) !! nick = Some u -> um_oper (u_modes u) = true ->
+  tokenize l = inl msg -> command_of_message msg = inl (DIE m) ->
+  step cfg verify w i (EvLine l) = Ok (w', o, cl) ->
+  users (sh w') = ∅ /\ (forall j c', conns w' !! j = Some c' -> c_auth c' = false).
+Proof. exact die_ends_all. Qed.
 
 Section C11.
 Context (cfg : config) (verify : str -> str -> bool) (i : nat).
@@ -142,6 +167,8 @@ End C11.
 Print Assumptions C11_operator_only_from_oper.
 Print Assumptions C11_no_other_command_confers.
 Print Assumptions C11_modes_untouched_by_channel_commands.
+Print Assumptions C11_kill_effect.
+Print Assumptions C11_die_ends_all.
 Print Assumptions C11_oper.
 Print Assumptions C11_mode_never_grants.
 Print Assumptions C11_foreign_modes_untouchable.
